@@ -125,8 +125,24 @@ def jobs_pipe(prop):
             jobs += props_pipe.junk_jobs(prop, tier, seed)
         if prop == 'C04':
             jobs += props_pipe.pending_cfg_jobs(tier)
+        jobs += cross_jobs(prop, tier, seed)
         return jobs
     return f
+
+
+def cross_jobs(prop, tier, seed):
+    """one-element probes of the decision harnesses whose assertion is an instance of the pipeline property: a ready element (expired `to`, targeted
+    name, any quoted value next to it) disappears completely (C03); a pending one leaves the text byte-identical (C02: nothing outside a ready extent
+    is lost; C04: nothing ready => identity)"""
+    if prop not in ('C02', 'C03', 'C04'):
+        return []
+    want_ready = prop == 'C03'
+    out = [j for j in c09_opaque_jobs(tier) if bool(j['params']['ready']) == want_ready]
+    out += [j for j in props_time.c05_jobs(tier, seed) if j['harness'] == 'c05_pipeline' and bool(j['params']['expect']) == want_ready]
+    return [dict(j, label='[decision probe] ' + j['label']) for j in out]
+
+
+CROSS_OPTIONAL = ('ready-element-with-opaque-value', 'pending-element-with-opaque-value', 'value-contains-blank-or-eq', 'removed', 'kept')
 
 
 PIPE_ASSUME = COMMON_ASSUME + [
@@ -168,16 +184,19 @@ PROPS = {
                     'replace_range, explicit panic!) or the step budget: tokenize, element_parser::parse on every tag token and parser::parse '
                     'on every valid UTF-8 source of N bytes for the delimiter pool and for symbolic delimiters; tag bodies U(N).',
         assumptions=COMMON_ASSUME),
-    'C02': dict(jobs=jobs_pipe('C02'), tv=('front', 'pipe'), assumptions=PIPE_ASSUME,
+    'C02': dict(jobs=jobs_pipe('C02'), tv=('front', 'pipe'), assumptions=PIPE_ASSUME, covers_optional={t: CROSS_OPTIONAL for t in ('quick', 'thorough')},
                 explanation='Real chiritori::clean (registry, strategy order, formatter set as wired in chiritori.rs) on documents with symbolic holes. '
                             'Assertion (one z3 query per path, alignment by dynamic programming over input/output bytes): the output is obtainable '
-                            'from the input by deleting only bytes inside ready extents and blanks.'),
-    'C03': dict(jobs=jobs_pipe('C03'), tv=('front', 'pipe'), assumptions=PIPE_ASSUME,
+                            'from the input by deleting only bytes inside ready extents and blanks. Plus one-element decision probes (pending element with any quoted value / '
+                            'deadline one second away at eight offsets, sub-second current time, quote-in-quote attributes): byte-identical output.'),
+    'C03': dict(jobs=jobs_pipe('C03'), tv=('front', 'pipe'), assumptions=PIPE_ASSUME, covers_optional={t: CROSS_OPTIONAL for t in ('quick', 'thorough')},
                 explanation='Same exploration as C02; assertion: the output is obtainable from the input *minus the ready extents* by deleting blanks only '
-                            '(so no byte of a ready element survives and the non-blank text is exactly the input minus the extents).'),
-    'C04': dict(jobs=jobs_pipe('C04'), tv=('front', 'pipe'), assumptions=PIPE_ASSUME,
+                            '(so no byte of a ready element survives and the non-blank text is exactly the input minus the extents). Plus one-element decision probes '
+                            '(ready element with any quoted value next to the deciding attribute, deadline reached exactly / one second ago at eight offsets): the element is gone.'),
+    'C04': dict(jobs=jobs_pipe('C04'), tv=('front', 'pipe'), assumptions=PIPE_ASSUME, covers_optional={t: CROSS_OPTIONAL for t in ('quick', 'thorough')},
                 explanation='Same exploration plus junk templates (arbitrary UTF-8 holes, empty target set, current time before every `to`): whenever the '
-                            'reference evaluation finds no ready element the output buffer equals the input byte for byte.'),
+                            'reference evaluation finds no ready element the output buffer equals the input byte for byte. Plus configuration-only pending documents and the one-element '
+                            'decision probes of C05 / C09 with a pending outcome.'),
     'C14': dict(jobs=jobs_pipe('C14'), tv=('front', 'pipe'), assumptions=PIPE_ASSUME,
                 kani=['proofs::indent_remover_covers_only_blanks', 'proofs::prev_line_break_remover_covers_only_blanks', 'proofs::next_line_break_remover_covers_only_blanks',
                       'proofs::empty_line_remover_covers_only_blanks'],
